@@ -1648,6 +1648,9 @@ class Server:
         if workers:
             for worker in workers:
                 worker.cancel()
+            # replies of aborted transfer are queued before the next command
+            # is handled (another ABOR finds nothing to abort then)
+            await asyncio.wait(workers)
         else:
             connection.response("226", "nothing to abort")
         return True
